@@ -162,4 +162,25 @@ PROPS = {
         level_note="Any number of requests, any N (no bound). T-fmt: f-string keys are injective constructors.",
         explanation="window lemma through contracts with a universally quantified ghost origin.",
     ),
+    "C08": dict(
+        specs=["packer", "avp", "avp_types", "avp_grouped", "base", "node_model", "peer", "helpers", "c20", "node", "c08"],
+        ground=[ground.c08_failed_avp], replay=replay.generic,
+        trusted_base=[],
+        assumptions=COMMON_ASSUME + [
+            "handlers are serialized (S5)",
+            "Inv_routes: every Application key of the route table is registered with this node (established by add_application); "
+            "instantiated for the visited key",
+            "table well-formedness (ground C03.T1): every avp_def row has a dictionary entry",
+            "the route-table construction by add_peer/add_application (realm -> app -> peers, _default) is NOT under contract yet",
+            "assumed contracts: Node.receive_cer / receive_cea, user-handler contract, PeerStats.*"],
+        level_text="Deductive proof of the request-dispatch case split on the real code: validate_message_avps returns exactly one "
+                   "entry per required-and-unset row, in table order, naming its (code, vendor) (loop invariant over the class' "
+                   "table); _receive_message answers 5005 itself and delivers nothing when that list is non-empty; "
+                   "_receive_app_request answers 3007 without Destination-Realm, 3003 for a realm that is not in the route table, "
+                   "hands the request exactly once to an application that is a key of that realm's routes with the request's "
+                   "application id and the originating peer in its peer list, and answers 3007 only if no key matches (for an "
+                   "arbitrary witness key); base-protocol commands never reach an application; a failing handler yields 5012.",
+        level_note="Sequential contracts; universally quantified ghost witness for 'no other application'.",
+        explanation="case postconditions of validate_message_avps, _receive_app_request and _receive_message.",
+    ),
 }
